@@ -54,6 +54,10 @@ void lltd_esp32_handle_frame(lltd_esp32_ctx_t *ctx, const void *frame, size_t le
     }
 
     const lltd_demultiplex_header_t *header = frame;
+    /* the constructors report an allocation failure by returning NULL */
+    if (!ctx->mapping || !ctx->session || !ctx->enumeration) {
+        return;
+    }
     switch_state_mapping(ctx->mapping, header->opcode, "rx");
     switch_state_session(ctx->session, header->opcode, "rx");
     if (header->opcode == opcode_hello) {
